@@ -60,3 +60,6 @@ Fixpoint parse_dec_acc (acc : N) (t : text) : option N :=
   end.
 (* int(stem) *)
 Definition stem_gid (t : text) : option N := match t with [] => None | _ => parse_dec_acc 0 t end.
+
+(* glue_together._copy_colr: the donor's layer glyphs are appended to the target's glyph order *)
+Definition copy_colr_order {G : Type} (target_order layer_glyphs : list G) : list G := target_order ++ layer_glyphs.
